@@ -311,7 +311,9 @@ CLAIMED["C33"] = dict(
         "the HTTP read helpers of the chunk download path Get, ReadUrl, ReadUrlAsStream, ReadUrlAsReaderCloser (a gzip reader is read from and closed only if "
         "gzip.NewReader produced one), Decrypt (nonce sliced off only after the length check) and readEncryptedUrl (the decrypted, decompressed chunk is cut to the "
         "requested range only if long enough). Obligations are the preconditions of the library calls (reading from / closing a nil *gzip.Reader dereferences it) and "
-        "the slice bounds.",
+        "the slice bounds. Sending side of the round trip, as guard obligations on doUploadData: what is encrypted is clear data (the input, or the decompressed "
+        "input when it arrived compressed), an encrypted upload carries no name, mime, pairs or gzip flag, a plain upload carries the caller's name and pairs, url "
+        "and token are the caller's.",
    note="The round trip 'fetched back as exactly the original bytes' is over gzip, AES-GCM, multipart encoding and HTTP (libraries and two processes) and is not "
         "decided; nor are doUploadData's compression heuristics. Assumed library contracts (listed in the evidence): gzip.NewReader returns a nil reader with its "
         "error; net/http hands out a real body; cipher.NewGCM returns an AEAD or an error; NonceSize is non-negative. The HTTP client and the callback are opaque "
@@ -328,7 +330,8 @@ CLAIMED["C40"] = dict(
         "carries the needle's TTL, its last-modified time exactly when it has one (decimal), the chunk-manifest flag exactly when set, the needle's own data slice, its "
         "compression flag, the rebuilt pair map and the caller's token, and is never encrypted; the delete goes to the same path on the replica with the caller's token.",
    note="Assumed (trusted): distributedOperation (goroutines and a channel: calls the closure once per location and returns nil exactly when all returned nil) and "
-        "DistributedOperationResult.Error. Not decided: that the replica decodes the request into the same needle (name and mime strings handed to UploadData, the "
+        "DistributedOperationResult.Error. One open known finding (doUploadData sends a detected mime type for a needle that has none: the replica's copy gets a "
+        "mime type the first server's copy does not have; replayed). Not decided: that the replica decodes the request into the same needle (name and mime strings handed to UploadData, the "
         "receiving handler's parsing), the completeness direction of the location list (every non-self location is included), concurrent writers. " + TRUST,
    design="DESIGN.md §4 C40")
 
